@@ -21,6 +21,9 @@ non-contiguous / offset / stepped / expanded tensors, int32 lengths, f16 / f64 f
 time, one tensor object for two parameters, element by element: identical result, arguments untouched.
 "police_only" cases carry non-finite (silent frames) or huge cells under a warp: masked cells must be exactly 0,
 finite output cells must not depend on the non-finite ones; no model comparison there.
+Dtype-exclusive streams (mask-dtype / pipe-mask-dtype / seed-dtype, see the block above `exclusive_cell`): features of every
+type the entry point accepts (f64, f16, f32; bf16 and int64/32/16 for apply_parameters) whose cells no other type can hold,
+without a warp; judged by the same `check_mask` on the type's own bit patterns.
 """
 import itertools
 import json
@@ -35,8 +38,12 @@ from vlib import cb, cl, clz, cn, co, cp, cq, cz, coq_eval_bools, coq_eval_print
 warnings.filterwarnings("ignore")
 IMPORTS = "From PV Require Import C08.Model C08.Spec.\n"
 U24 = 1 << 24
-DT = {"f16": torch.float16, "f32": torch.float32, "f64": torch.float64}
-CDT = {"f16": "F16", "f32": "F32", "f64": "F64"}
+DT = {"f16": torch.float16, "f32": torch.float32, "f64": torch.float64,
+      # feature types of the dtype-exclusive streams (round 5); bf16 and the integer types only for apply_parameters
+      "bf16": torch.bfloat16, "i64": torch.int64, "i32": torch.int32, "i16": torch.int16}
+BITVIEW = {torch.float16: torch.int16, torch.bfloat16: torch.int16, torch.float32: torch.int32, torch.float64: torch.int64}
+FLAYOUT = {"f16": (16, 5, 10), "bf16": (16, 8, 7), "f32": (32, 8, 23), "f64": (64, 11, 52)}   # bits, exponent bits, mantissa bits
+CDT ={"f16": "F16", "f32": "F32", "f64": "F64"}
 EPS = {"f16": Fraction(1, 2 ** 10), "f32": Fraction(1, 2 ** 23), "f64": Fraction(1, 2 ** 52)}
 ROLES = ["w0", "w", "v0", "v", "t", "t0", "f", "f0"]
 MONO_TOL = Fraction(1, 20)      # pixels
@@ -184,17 +191,25 @@ def jsonable(o):
     return o
 
 
-def bits_to_feats(bits):
-    return torch.tensor(bits, dtype=torch.int32).view(torch.float32)
+def bits_to_feats(bits, dtype=torch.float32):
+    """cells as signed bit patterns of `dtype` (integer types: the values themselves)"""
+    if dtype not in BITVIEW:
+        return torch.tensor(bits, dtype=dtype)
+    return torch.tensor(bits, dtype=BITVIEW[dtype]).view(dtype)
 
 
 def feats_to_bits(x):
-    return x.contiguous().view(torch.int32).tolist()
+    """signed bit patterns (any float type; +0.0 is pattern 0 in each of them) / the values of an integer tensor"""
+    if x.dtype in BITVIEW:
+        return x.contiguous().view(BITVIEW[x.dtype]).tolist()
+    if x.is_floating_point() or x.is_complex() or x.dtype == torch.bool:
+        raise ValueError(f"no bit view for {x.dtype}")
+    return x.tolist()
 
 
 def make_feats(case):
     if case.get("bits") is not None:
-        return bits_to_feats(case["bits"])
+        return bits_to_feats(case["bits"], DT[case.get("dtype", "f32")])
     return torch.tensor(case["cells"], dtype=DT[case.get("dtype", "f32")])
 
 
@@ -439,7 +454,7 @@ def run_pipe(case):
         res["eval"] = True
         res["spec_fail"] += pipe_alts(case, feats, lengths, feats, training)
         return res
-    if tuple(out.shape) != tuple(feats.shape):
+    if tuple(out.shape) != tuple(feats.shape) or (out.dtype != feats.dtype and case.get("dtype", "f32") != "f32"):
         res["spec_fail"].append("shape_preserved")
         return res
     if not feats_equal(out, out2):
@@ -456,7 +471,7 @@ def run_pipe(case):
             res["err"] = "exc:" + exc_kind(e) + ":" + str(e)[:120]
             res["exc_in"] = "warp_1d_grid"
     else:
-        res["outbits"] = feats_to_bits(out) if out.dtype == torch.float32 else None
+        res["outbits"] = feats_to_bits(out) if (out.dtype in BITVIEW and out.dtype == feats.dtype) else None
         if res["outbits"] is None:
             res["out"] = [[[Fraction(x) for x in r] for r in img] for img in out.double().tolist()]
     res["spec_fail"] += pipe_alts(case, feats, lengths, out, training)
@@ -476,8 +491,10 @@ def add_grids(res, F_, T, Fd, lens, order):
 def feats_equal(a, b):
     if a.dtype != b.dtype or a.shape != b.shape:
         return False
-    if a.dtype == torch.float32:
-        return bool((a.contiguous().view(torch.int32) == b.contiguous().view(torch.int32)).all())
+    if a.dtype in BITVIEW:
+        return bool((a.contiguous().view(BITVIEW[a.dtype]) == b.contiguous().view(BITVIEW[a.dtype])).all())
+    if not a.is_floating_point():
+        return bool((a == b).all())
     return bool(((a == b) | (a.isnan() & b.isnan())).all())
 
 
@@ -621,7 +638,7 @@ def run_apply(case):
             res["spec_fail"] += nonfinite_relation(case, feats, p, order, lengths, out)
         res["tgrid"] = ref_grid(F_, P["w0"], P["w"], lens, case["T"], order) if tw else None
         res["fgrid"] = ref_grid(F_, P["v0"], P["v"], [case["F"]] * N, case["F"], order) if fw else None
-    elif out.dtype == torch.float32:
+    elif out.dtype in BITVIEW or case.get("dtype") in ("i64", "i32", "i16"):
         res["outbits"] = feats_to_bits(out)
     else:
         res["out"] = [[[Fraction(x) for x in r] for r in img] for img in out.double().tolist()]
@@ -746,7 +763,7 @@ def run_seed(case):
         return {"err": "exc:" + exc_kind(e) + ":" + str(e)[:120], "exc_in": "seed"}
     if not unchanged([feats, lengths], snap):
         res["spec_fail"].append("rel:inputs_unchanged")
-    if tuple(out.shape) != tuple(feats.shape):
+    if tuple(out.shape) != tuple(feats.shape) or (out.dtype != feats.dtype and case.get("dtype", "f32") != "f32"):
         res["spec_fail"].append("shape_preserved")
         return res
     if not feats_equal(out, out2):
@@ -1052,6 +1069,115 @@ def gen_cells(rng, N, T, Fd):
     return [[[rng.randint(-8, 8) for _ in range(Fd)] for _ in range(T)] for _ in range(N)]
 
 
+# ----------------------------------------------------------------------------------------
+# dtype-exclusive values (round 5): features in every type the entry point accepts, holding values that NO narrower
+# (or merely other) type can represent - full-width mantissas, exponents beyond the float32 / float16 / bfloat16 range,
+# subnormals, NaN payloads, integers above 2^24 / 2^53.  "Bit-identical outside the masks" is then violated by any
+# internal detour through another working precision.  Cells are signed bit patterns; the model term is the same
+# `check_mask` (it is generic in the cell type, the masked value is pattern 0 = +0.0 = integer 0 in every type).
+# Only without a warp: HEAD refuses non-float32 features in grid_sample (outside the property's claim).
+# ----------------------------------------------------------------------------------------
+def _signed(v, nb):
+    return v - (1 << nb) if v >= (1 << (nb - 1)) else v
+
+
+def value_bits(x, dt):
+    t = torch.tensor([x], dtype=DT[dt])
+    return t.view(BITVIEW[DT[dt]]).item() if DT[dt] in BITVIEW else t.item()
+
+
+def exclusive_cell(rng, dt):
+    if dt in ("i64", "i32", "i16"):
+        nb = {"i64": 64, "i32": 32, "i16": 16}[dt]
+        top = (1 << (nb - 1)) - 1
+        c = rng.random()
+        if c < 0.45:   # odd and above the exact-integer range of the next float type (2^53 / 2^24 / 2^11 / 2^8)
+            lim = {"i64": 53, "i32": 24, "i16": 8}[dt]
+            return rng.choice([-1, 1]) * min(top, (1 << rng.randint(lim, nb - 2)) + 2 * rng.randrange(1 << (lim - 2)) + 1)
+        if c < 0.6:
+            return rng.choice([top, -top - 1, top - 1, -top])
+        if c < 0.8:
+            return _signed(rng.getrandbits(nb), nb)
+        return rng.randint(-8, 8)
+    nb, ne, nm = FLAYOUT[dt]
+    emax, bias = (1 << ne) - 1, (1 << (ne - 1)) - 1
+    s, c = rng.getrandbits(1), rng.random()
+    if c < 0.5:      # ordinary magnitude, full-width mantissa with the last bit set
+        e, m = bias + rng.randint(-6, 6), rng.getrandbits(nm) | 1
+    elif c < 0.64:   # any exponent (beyond the range of every narrower type, or subnormal there)
+        e, m = rng.randint(1, emax - 1), rng.getrandbits(nm)
+    elif c < 0.72:   # subnormal
+        e, m = 0, rng.choice([1, (1 << nm) - 1, rng.getrandbits(nm) | 1])
+    elif c < 0.78:   # largest finite / smallest normal
+        e, m = rng.choice([(emax - 1, (1 << nm) - 1), (1, 0)])
+    elif c < 0.83:   # +-inf
+        e, m = emax, 0
+    elif c < 0.88:   # quiet NaN with a payload
+        e, m = emax, (1 << (nm - 1)) | rng.getrandbits(nm - 1)
+    elif c < 0.93:   # +-0.0
+        e, m = 0, 0
+    else:
+        return value_bits(rng.randint(-8, 8) / 4.0, dt)
+    return _signed((s << (nb - 1)) | (e << nm) | m, nb)
+
+
+def gen_bits_dt(rng, dt, N, T, Fd):
+    return [[[exclusive_cell(rng, dt) for _ in range(Fd)] for _ in range(T)] for _ in range(N)]
+
+
+def has_exclusive(case):
+    """some cell of the case does not survive the trip through float32 (float64 / integer features) resp. through
+    float16 AND bfloat16 (float32 features) resp. the other 16-bit type (histogram only)"""
+    x = make_feats(case)
+    def trip(*ds):
+        y = x
+        for d in ds:
+            y = y.to(d)
+        return not same_bits(y.to(x.dtype), x)
+    dt = case.get("dtype", "f32")
+    if dt == "f32":
+        return trip(torch.float16) and trip(torch.bfloat16)
+    if dt == "f16":
+        return trip(torch.bfloat16)
+    if dt == "i16":
+        return trip(torch.bfloat16, torch.float32)
+    if dt == "bf16":
+        return trip(torch.float16)
+    return trip(torch.float32)
+
+
+def gen_mask_dtype(rng):
+    case = gen_mask(rng)
+    dt = rng.choice(["f64", "f64", "f64", "f64", "f16", "bf16", "f32", "i64", "i32", "i16"])
+    case.pop("cells", None)
+    case["dtype"], case["bits"], case["stream"] = dt, gen_bits_dt(rng, dt, case["N"], case["T"], case["F"]), "mask-dtype"
+    same_rows(rng, case)
+    case["alts"] = [a for a in case["alts"] if a == "alias"] + pick_alts(rng, [a for a in APPLY_ALTS if a not in ("alias", "f64", "f16")], 2)
+    return case
+
+
+def gen_pipe_dtype(rng):
+    """the whole call (function / module, train and eval) on masks-only configurations; draw_parameters knows f16 / f32 / f64"""
+    case = gen_pipe(rng, warp=False)
+    dt = rng.choice(["f64", "f64", "f64", "f16", "f32"])
+    case["dtype"], case["bits"], case["stream"] = dt, gen_bits_dt(rng, dt, case["N"], case["T"], case["F"]), "pipe-mask-dtype"
+    if rng.random() < 0.1:
+        case["training"] = False
+    same_rows(rng, case)
+    return case
+
+
+def gen_seed_dtype(rng, pool):
+    """unpatched generator, masks only (pool: masks-only configurations shared by the scripted variants)"""
+    case = gen_seed(rng, pool)
+    case["cfg"] = dict(case["cfg"], Wt=0.0, Wf=0.0)
+    dt = rng.choice(["f64", "f64", "f16", "f32"])
+    case.pop("cells", None)
+    case.pop("police_only", None)
+    case["dtype"], case["bits"], case["stream"] = dt, gen_bits_dt(rng, dt, case["N"], case["T"], case["F"]), "seed-dtype"
+    return case
+
+
 def gen_pipe(rng, warp):
     N = rng.randint(1, 3)
     T, Fd = (rng.randint(1, 7), rng.randint(1, 5)) if warp else (rng.randint(1, 9), rng.randint(1, 7))
@@ -1281,6 +1407,14 @@ def gen_cases(chk):
     pool = [(gen_cfg(rng, small=True), rng.choice([1, 1, 2, 3])) for _ in range(6 if not th else 16)]
     for _ in range(150 * k):
         cases.append(gen_seed(rng, pool))
+    # round 5: dtype-exclusive values through every entry point that masks without a warp (own draws AFTER the older streams)
+    for _ in range(150 * k):
+        cases.append(gen_mask_dtype(rng))
+    for _ in range(120 * k):
+        cases.append(gen_pipe_dtype(rng))
+    pool2 = [(dict(gen_cfg(rng, small=True), Wt=0.0, Wf=0.0), rng.choice([1, 2])) for _ in range(2 if not th else 5)]
+    for _ in range(40 * k):
+        cases.append(gen_seed_dtype(rng, pool2))
     return cases
 
 
@@ -1429,6 +1563,9 @@ def run(chk, cases=None):
                 "piecewise-linear grid (5e-3 px, destination >= 1e-2 px from the ends); seed: unpatched generator. "
                 "every case also names robustness variants (alts: other entry point incl. torch.jit.script, memory layout, dtype, "
                 "repeated call, aliased parameters, element alone) whose result must equal the canonical call's, arguments untouched. "
+                "*-dtype streams: masks only, features of type f64/f16/f32 (whole call, apply) and bf16/int64/int32/int16 (apply) holding "
+                "values no other type represents (full mantissas, out-of-range exponents, subnormals, NaN payloads, integers > 2^53), "
+                "bit patterns of that type against apply_masks. "
                 "non-trivial = at least one of the four parameter groups is enabled / usable")
     chk.assumptions += ["torch.rand is patched to serve the case's variates (u = k / 2^24, the grid torch.rand itself produces)",
                         "torch.linalg.solve (inside polyharmonic_spline) and grid_sample are kernel oracles: order-1 grids are compared with the exact "
@@ -1464,6 +1601,13 @@ def run(chk, cases=None):
             chk.count("api=" + c["api"])
         for a_ in c.get("alts") or []:
             chk.count("alt=" + a_)
+        if stream.endswith("-dtype") or (explicit and c.get("bits") is not None and c.get("dtype")):
+            chk.count("feats_dtype=" + c["dtype"])
+            try:
+                if has_exclusive(c):
+                    chk.count("dtype-exclusive-cells(some cell is not representable in the neighbouring types):" + c["dtype"])
+            except Exception:
+                pass
         if c.get("police_only"):
             chk.count("police_only(non-finite or huge cells under a warp)")
         chk.count("outcome=" + ("exception" if "err" in res else ("warped" if res.get("warped") else "ok")))
@@ -1515,6 +1659,8 @@ def run(chk, cases=None):
                    "theorems_at_stake": THEOREMS.get(clause, sum(THEOREMS.values(), []))}
             chk.report(rec, no_failing_input=True)
     source_tie(chk, cases, results)
+    from props import c08_tie
+    c08_tie.source_tieB(chk, cases, results)
 
 
 def model_show(chk, case, res, clause):
